@@ -1,5 +1,5 @@
 #!/bin/bash
-# usage: tools/mutant_matrix.sh [tier] [extra-check ...]
+# usage: [ONLY='C??-[CD]'] [OUT=file] tools/mutant_matrix.sh [tier] [extra-check ...]
 # Runs every seeded change against the check of its own property (plus the extra checks given) in a scratch
 # worktree of /repo's HEAD (so /repo itself is not touched and background runs are not disturbed) and writes
 # seeded/RESULTS.tsv:  change <TAB> check <TAB> exit <TAB> #violation-lines <TAB> first mechanism
@@ -11,9 +11,9 @@ git -C /repo worktree remove --force $WT 2>/dev/null
 rm -rf $WT
 git -C /repo worktree add --detach $WT HEAD >/dev/null 2>&1 || { echo "cannot create worktree"; exit 2; }
 trap 'git -C /repo worktree remove --force $WT >/dev/null 2>&1; rm -rf $WT' EXIT
-out=seeded/RESULTS.tsv
+out=${OUT:-seeded/RESULTS.tsv}
 printf "change\tcheck\texit\tviolation_lines\tfirst_mechanism\n" > $out
-for d in seeded/C??-?; do
+for d in seeded/${ONLY:-C??-?}; do
   name=$(basename $d); own=${name%-*}
   git -C $WT checkout -q -- . && git -C $WT clean -fdq
   if ! git -C $WT apply $PWD/$d/patch.diff 2>/dev/null; then
